@@ -104,7 +104,7 @@ def cases(rng, tier, shard, nshards, phase):
         op = rng.choice(["condense", "condense", "eq", "eq", "add", "derived", "dupcands", "convert"])
         case = {"op": op, "names": names, "b": bs, "perm": perm}
         if op == "eq":
-            case["other"] = rng.choice(["perm", "split", "perturb-weight", "drop-scores", "drop-ballot"])
+            case["other"] = rng.choice(["perm", "split", "perturb-weight", "drop-scores", "drop-ballot", "swap-scores"])
             case["k"] = rng.randrange(len(bs))
         if op == "add":
             case["cut"] = rng.randint(0, len(bs))
@@ -210,6 +210,19 @@ def run_case(vk, case):
         elif kind == "drop-ballot":
             other = [b for i, b in enumerate(ballots) if i != k]
             mother = [b for i, b in enumerate(mballs) if i != k]
+        elif kind == "swap-scores" and len(nm) >= 2:
+            # two ballots of equal weight with different rankings and different score dictionaries, and the same two
+            # with the dictionaries exchanged: every ranking and every score dictionary keeps its total weight, but
+            # the contents (ranking, scores) differ, so the profiles are NOT equal
+            j = (k + 1) % len(bs) if len(bs) > 1 else None
+            bi = dict(bs[k], r=[[0], [1]], s=[[0, "2"], [1, "1"]])
+            bj = dict(bs[j] if j is not None and j != k else bs[k], r=[[1], [0]], s=[[0, "1"], [1, "3"]], wpy=bs[k]["wpy"])
+            keep = [i for i in range(len(bs)) if i != k and i != j]
+            ballots = [ballots[i] for i in keep] + [mk(vk, nm, bi), mk(vk, nm, bj)]
+            mballs = [mballs[i] for i in keep] + [mball(bi), mball(bj)]
+            bi2, bj2 = dict(bi, s=bj["s"]), dict(bj, s=bi["s"])
+            other = ballots[:-2] + [mk(vk, nm, bi2), mk(vk, nm, bj2)]
+            mother = mballs[:-2] + [mball(bi2), mball(bj2)]
         p = vk.PreferenceProfile(ballots=tuple(ballots))
         q = vk.PreferenceProfile(ballots=tuple(other))
         e1 = run_impl(lambda: p == q)
